@@ -446,6 +446,71 @@ def same_term(a, b, under=T):
     return True
 
 
+def string_cases(w, term, under=T, _depth=0):
+    """every string a string-valued term can denote, as [(condition, [pieces])]: conditional values per case, `format!` templates
+       flattened (also nested), accumulators read through their appends (an append under a condition is in or out), empty strings
+       dropped, adjacent literal pieces merged.  Two ways of writing the same concatenation give the same cases."""
+    def merge(ps):
+        out = []
+        for x in ps:
+            if x[0] == 'lit' and isinstance(x[1], str):
+                if not x[1]:
+                    continue
+                if out and out[-1][0] == 'lit' and isinstance(out[-1][1], str):
+                    out[-1] = ('lit', out[-1][1] + x[1])
+                    continue
+            out.append(x)
+        return out
+
+    def seq(parts, cond0):
+        cases = [(cond0, [])]
+        for kind, val, pc in parts:
+            new = []
+            for c, ps in cases:
+                if pc is not T:
+                    cc = And(c, Not(pc))
+                    if sat(cc) is not None:
+                        new.append((cc, ps))
+                cin = And(c, pc)
+                if sat(cin) is None:
+                    continue
+                if kind == 'lit':
+                    new.append((cin, ps + [val]))
+                else:
+                    for c2, ps2 in string_cases(w, val, cin, _depth + 1):
+                        new.append((c2, ps + ps2))
+            cases = new
+            if len(cases) > 64:
+                raise AnchorLost('string value with too many cases')
+        return cases
+    t = term
+    if _depth > 6 or not isinstance(t, tuple) or not t:
+        return [(under, [t])]
+    if t[0] == 'ite':
+        out = []
+        for c_, leaf in term_cases(t):
+            cc = And(under, c_)
+            if sat(cc) is not None:
+                out.extend(string_cases(w, leaf, cc, _depth + 1))
+        return [(c, merge(ps)) for c, ps in out]
+    if t[0] == 'fmt':
+        parts = []
+        for pc_ in t[1]:
+            if isinstance(pc_, str):
+                parts.append(('lit', ('lit', pc_), T))
+            else:
+                parts.append(('val', t[2 + pc_[1]], T))
+        return [(c, merge(ps)) for c, ps in seq(parts, under)]
+    if t[0] == 'fresh' or t == ('lit', ''):
+        return [(under, [])]
+    if t[0] == 'local':
+        apps = [e for e in w.events if e.kind == 'local_mut' and e.data['local'] == t
+                and e.data['method'] in ('init', 'push', 'push_str', 'add_assign')]
+        parts = [('val', e.data['args'][0], e.pc) for e in apps]
+        return [(c, merge(ps)) for c, ps in seq(parts, under)]
+    return [(under, [t])]
+
+
 class _VData(VirtualEvent):
     def __init__(self, ev, pc, data):
         VirtualEvent.__init__(self, ev, pc)
